@@ -371,10 +371,16 @@ type c19BConfig struct {
 	Poll bool `json:"count_polled_after_every_add"`
 	// Deep: a tiny buffer and a stream thousands of times larger, so that the
 	// probability is halved a dozen times or more ("far above the buffer size").
-	Deep   bool    `json:"deep_halving"`
-	Mean   float64 `json:"mean_count"`
-	StdDev float64 `json:"stddev_count"`
-	Tol    float64 `json:"tolerance"`
+	Deep bool `json:"deep_halving"`
+	// RealSource: the counters come from the real constructor, with whatever
+	// source it sets up (in production: ChaCha8 seeded from crypto/rand), not
+	// from the simulator: "independent runs" must be independent as shipped.
+	// The verdict is statistical only; the run's fingerprint leaves the counts
+	// out, because they differ from process to process.
+	RealSource bool    `json:"real_constructor_and_entropy"`
+	Mean       float64 `json:"mean_count"`
+	StdDev     float64 `json:"stddev_count"`
+	Tol        float64 `json:"tolerance"`
 }
 
 var c19BSizes = []int{4, 6, 8, 12, 16, 24, 32, 64, 100, 200}
@@ -397,6 +403,7 @@ func runC19B(ch chooser.Chooser, st *Stats) *Outcome {
 	cfg.Counters = C19BCounters
 	cfg.Reuse = ch.Draw(3, "reuse") == 2
 	cfg.Poll = ch.Draw(3, "poll") == 2
+	cfg.RealSource = ch.Draw(6, "realsource") == 5
 	if ch.Draw(6, "deep") == 5 {
 		cfg.Deep = true
 		cfg.Size = []int{4, 6, 8}[ch.Draw(3, "dsize")]
@@ -423,7 +430,16 @@ func runC19B(ch chooser.Chooser, st *Stats) *Outcome {
 		var n uint64
 		p := safely(func() {
 			var c *distinct.Counter[int]
-			if cfg.Reuse {
+			if cfg.RealSource && cfg.Reuse {
+				if shared == nil {
+					shared = distinct.NewCounter[int](cfg.Size)
+				} else {
+					shared.Reset()
+				}
+				c = shared
+			} else if cfg.RealSource {
+				c = distinct.NewCounter[int](cfg.Size)
+			} else if cfg.Reuse {
 				if shared == nil {
 					shared = distinct.VerifNewCounter[int](cfg.Size, rand.NewPCG(subSeed, 1))
 				} else {
@@ -452,7 +468,9 @@ func runC19B(ch chooser.Chooser, st *Stats) *Outcome {
 		f := float64(n)
 		sum += f
 		sumsq += f * f
-		h.u64(n)
+		if !cfg.RealSource {
+			h.u64(n)
+		}
 	}
 	N := float64(cfg.Counters)
 	mean := sum / N
@@ -473,6 +491,9 @@ func runC19B(ch chooser.Chooser, st *Stats) *Outcome {
 	}
 	if cfg.Deep {
 		st.Inc("probe:deep_halving_configuration", 1)
+	}
+	if cfg.RealSource {
+		st.Inc("probe:real_constructor_and_entropy", 1)
 	}
 	if math.Abs(mean-float64(cfg.Distinct)) > cfg.Tol {
 		out.Violation = &Violation{"biased-estimate", fmt.Sprintf("size %d, %d distinct values in a stream of %d: mean Count over %d independent counters is %.3f (std dev %.3f); deviation %.3f exceeds 8 standard errors = %.3f",
